@@ -1570,3 +1570,59 @@ func TestGocvReplay(t *testing.T) {
 		})
 	}
 }
+
+// ---------------------------------------------------------------------------
+// driver: NewFallbackGenerator (C20) — generators created at the same instant must still differ: eight goroutines create
+// 20000 generators each and the first identifier of every generator must be new.
+
+func init() {
+	registerReplay(replayDriver{
+		modelFree: true,
+		name:      "pkg/id: fallback generators created concurrently",
+		match: func(ob *Oblig) bool {
+			return strings.HasPrefix(ob.Func, "pkg/id.NewFallbackGenerator") && strings.Contains(ob.Name, "draws-its-own-number")
+		},
+		build: func(ob *Oblig, m map[string]string) (string, string, bool) {
+			return "pkg/id", "// generated by gocv for obligation " + ob.Name + "\n" + fallbackPrefixTest, true
+		},
+	})
+}
+
+const fallbackPrefixTest = `package id
+
+import (
+	"sync"
+	"testing"
+)
+
+func TestGocvReplay(t *testing.T) {
+	const G, N = 8, 20000
+	firsts := make([][]string, G)
+	var wg sync.WaitGroup
+	for g := 0; g < G; g++ {
+		wg.Add(1)
+		go func(g int) {
+			defer wg.Done()
+			r := make([]string, N)
+			for i := range r {
+				r[i] = NewFallbackGenerator().New().String()
+			}
+			firsts[g] = r
+		}(g)
+	}
+	wg.Wait()
+	seen := map[string]int{}
+	dups := 0
+	for _, r := range firsts {
+		for _, s := range r {
+			seen[s]++
+			if seen[s] == 2 {
+				dups++
+			}
+		}
+	}
+	if dups > 0 {
+		t.Fatalf("%d of %d generators created by %d goroutines issued a first identifier that another generator had issued", dups, G*N, G)
+	}
+}
+`
